@@ -43,8 +43,9 @@ type sideViolation struct {
 const sentinel = 0xA5
 
 type bufCheck struct {
-	buf  []byte
-	orig []byte
+	buf       []byte
+	orig      []byte
+	zeroAfter bool
 }
 
 var (
@@ -76,6 +77,12 @@ func bufKey(b []byte) []byte {
 	if bufCount%3 == 0 {
 		return buf[8 : 8+n : 8+n] // exactly full
 	}
+	if bufCount%4 == 1 {
+		// the byte right after the key is already 0x00 (a scratch buffer made with make([]byte, 0, N)):
+		// a terminator that "is already there" must still not make the tree keep this array
+		buf[8+n] = 0
+		bufPending[len(bufPending)-1].zeroAfter = true
+	}
 	return buf[8 : 8+n] // spare capacity holds live caller data
 }
 
@@ -92,6 +99,12 @@ func bufVerify() string {
 			return fmt.Sprintf("key bytes changed: %x -> %x", c.orig, c.buf[8:8+n])
 		}
 		for j := 8 + n; j < len(c.buf); j++ {
+			if j == 8+n && c.zeroAfter {
+				if c.buf[j] != 0 {
+					return fmt.Sprintf("byte 0 beyond len (was 0x00) overwritten with %#x after key %x", c.buf[j], c.orig)
+				}
+				continue
+			}
 			if c.buf[j] != sentinel {
 				return fmt.Sprintf("byte %d beyond len (spare capacity) overwritten with %#x after key %x", j-8-n, c.buf[j], c.orig)
 			}
@@ -191,6 +204,9 @@ func (se *session) do(toks []string, lineNo int) (res string) {
 					se.side = append(se.side, sideViolation{lineNo, "C15", "tree changed by " + strings.Join(toks, " ")})
 				}
 			}
+		}
+		for _, m := range t.TakeAlias() {
+			se.side = append(se.side, sideViolation{lineNo, "C08", "a returned key does not stay as returned: " + m + " in " + strings.Join(toks, " ")})
 		}
 		if bufOn {
 			if msg := bufVerify(); msg != "" {
